@@ -156,7 +156,7 @@ fn execute(image: &[u8], truth: &Model, reference: Option<&[Res]>, work: &[Op], 
             return out;
         }
     };
-    lib.budget_base = 2000;
+    lib.budget_base = 400_000;
     'ops: for (i, op) in work.iter().enumerate() {
         let mut tries = 0;
         loop {
